@@ -72,7 +72,14 @@ def _refill(buf, new, base=None):
         np.copyto(buf, new)
         return buf
     d = getattr(buf, '__dict__', None)
+    if isinstance(buf, (tuple, set, frozenset)) or (isinstance(buf, (list, dict)) and not isinstance(d, dict)):
+        return copy.deepcopy(new)
     if isinstance(d, dict) and type(buf) is type(new) and not isinstance(buf, np.ndarray):
+        if isinstance(buf, list):                      # a list subclass carrying attributes (PolygonList): items and attributes
+            buf[:] = [copy.deepcopy(x) for x in new]
+        elif isinstance(buf, dict):
+            buf.clear()
+            buf.update(copy.deepcopy(dict(new)))
         nd = new.__dict__
         # the attributes the caller's object had when this structure was first seen (``base``) take the new content; what the
         # function itself stored on the buffer object during the monitor's calls stays where it is - that is the state whose
